@@ -167,7 +167,7 @@ func (w *World) remFlags(n *Node, b *Block) []bool {
 		return out
 	}
 	mode := r.Weighted(2, 2, 2, 3, 2)
-	if len(out) > 4096 && mode != 0 && mode != 2 {
+	if len(out) > 512 && mode != 0 && mode != 2 {
 		mode = 5 // a block of tens of thousands of additions: remember a sparse subset
 	}
 	for i := range out {
